@@ -863,13 +863,21 @@ impl ops::Add<Value> for Value {
                 Arc::make_mut(&mut l).push_str(&r);
                 Ok(Value::String(l))
             }
-            // todo! Check for integer overflow in duration math
             #[cfg(feature = "chrono")]
-            (Value::Duration(l), Value::Duration(r)) => Value::Duration(l + r).into(),
+            (Value::Duration(l), Value::Duration(r)) => l
+                .checked_add(&r)
+                .ok_or(ExecutionError::IntegerOverflow("add", l.into(), r.into()))
+                .map(Value::Duration),
             #[cfg(feature = "chrono")]
-            (Value::Timestamp(l), Value::Duration(r)) => Value::Timestamp(l + r).into(),
+            (Value::Timestamp(l), Value::Duration(r)) => l
+                .checked_add_signed(r)
+                .ok_or(ExecutionError::IntegerOverflow("add", l.into(), r.into()))
+                .map(Value::Timestamp),
             #[cfg(feature = "chrono")]
-            (Value::Duration(l), Value::Timestamp(r)) => Value::Timestamp(r + l).into(),
+            (Value::Duration(l), Value::Timestamp(r)) => r
+                .checked_add_signed(l)
+                .ok_or(ExecutionError::IntegerOverflow("add", l.into(), r.into()))
+                .map(Value::Timestamp),
             (left, right) => Err(ExecutionError::UnsupportedBinaryOperator(
                 "add", left, right,
             )),
@@ -895,13 +903,21 @@ impl ops::Sub<Value> for Value {
 
             (Value::Float(l), Value::Float(r)) => Value::Float(l - r).into(),
 
-            // todo: implement checked sub for these over-flowable operations
             #[cfg(feature = "chrono")]
-            (Value::Duration(l), Value::Duration(r)) => Value::Duration(l - r).into(),
+            (Value::Duration(l), Value::Duration(r)) => l
+                .checked_sub(&r)
+                .ok_or(ExecutionError::IntegerOverflow("sub", l.into(), r.into()))
+                .map(Value::Duration),
             #[cfg(feature = "chrono")]
-            (Value::Timestamp(l), Value::Duration(r)) => Value::Timestamp(l - r).into(),
+            (Value::Timestamp(l), Value::Duration(r)) => l
+                .checked_sub_signed(r)
+                .ok_or(ExecutionError::IntegerOverflow("sub", l.into(), r.into()))
+                .map(Value::Timestamp),
+            // the difference of two representable timestamps always fits a `TimeDelta`
             #[cfg(feature = "chrono")]
-            (Value::Timestamp(l), Value::Timestamp(r)) => Value::Duration(l - r).into(),
+            (Value::Timestamp(l), Value::Timestamp(r)) => {
+                Value::Duration(l.signed_duration_since(r)).into()
+            }
             (left, right) => Err(ExecutionError::UnsupportedBinaryOperator(
                 "sub", left, right,
             )),
